@@ -1506,7 +1506,7 @@ class Exec:
     def call_function(self, fi: FuncInfo, args, kwargs, st, node, def_frame=None, is_prop=False):
         c, iface_only = self.contract_for(fi, args)
         if c is not None and not c.inline:
-            return self.apply_contract(c, fi, args, kwargs, st, node, iface_only=iface_only)
+            return self.apply_contract(c, fi, args, kwargs, st, node, iface_only=iface_only, def_frame=def_frame)
         # dynamic dispatch guard: a method called on a receiver whose exact class is unknown and that is
         # overridden somewhere must go through a contract
         if args and isinstance(args[0], ty.ObjV) and fi.cls and not fi.is_static and not args[0].exact \
@@ -1568,7 +1568,7 @@ class Exec:
                     out[n] = self.coerce(t, vv, node)
         return out
 
-    def apply_contract(self, c: Contract, fi: FuncInfo, args, kwargs, st, node, iface_only=False):
+    def apply_contract(self, c: Contract, fi: FuncInfo, args, kwargs, st, node, iface_only=False, def_frame=None):
         self.stats["calls_by_contract"] += 1
         self.contracts_used.add(c.qualname + (f"@{c.extra.get('recv')}" if c.extra.get("recv") else ""))
         if c.assumed:
@@ -1576,6 +1576,11 @@ class Exec:
         bound = self.bind_args(fi, args, kwargs, st, node)
         self._cur_call_state = st
         targs = self.typed_args(c, fi, bound, node)
+        for cn, ct in (c.extra.get("closure") or {}).items():
+            # free variables of a nested function: read from the frame it was defined in
+            if def_frame is None or cn not in st.frames[def_frame].env:
+                raise Unsupported(f"closure variable {cn} of {fi.qualname} not found at the call site", node)
+            targs[cn] = self.coerce(ct, self.to_storable(st.frames[def_frame].env[cn]), node)
         name = fi.qualname.split("acnportal.")[-1]
         pre = self.view(st, targs)
         # 1. preconditions
@@ -1723,8 +1728,9 @@ class Exec:
         self.cur_props = tuple(props)
         n0 = len(self.obls)
         st, bound = self.initial_state(c, fi)
-        st.ghost["__inputs__"] = {k: v for k, v in bound.items()}
-        pre = self.view(st, bound)
+        closure = {cn: ty.named(ct, cn) for cn, ct in (c.extra.get("closure") or {}).items()}
+        st.ghost["__inputs__"] = {k: v for k, v in list(bound.items()) + list(closure.items())}
+        pre = self.view(st, dict(bound, **closure))
         for cl in c.requires:
             for tag, g in self.eval_clauses(cl.fn, pre):
                 st.assume(g)
@@ -1735,8 +1741,17 @@ class Exec:
         self.oblige(st, "requires/satisfiable", z3.BoolVal(False), fi.node, kind="canary")
         entry = st.fork()
         bound["__recv__"] = recv
-        outs = self.run_function(fi, bound, st, cls_ctx=fi.cls)
+        def_frame = None
+        if closure:
+            st.frames.append(Frame(dict(closure), None, fi, "<closure>"))
+            entry.frames.append(Frame(dict(closure), None, fi, "<closure>"))
+            def_frame = len(st.frames) - 1
+        outs = self.run_function(fi, bound, st, cls_ctx=fi.cls, def_frame=def_frame)
         bound.pop("__recv__")
+        if closure:
+            for o in outs:
+                o.st.frames.pop()
+            bound.update(closure)
         from .views import wrap
         n_paths = 0
         for o in outs:
